@@ -24,3 +24,25 @@ pub fn guarded(f: impl FnOnce()) {
         }
     }
 }
+
+/// Inputs whose nesting would exhaust the stack of the *instrumented* build (ASan frames are
+/// several times larger than those of the shipped binary) inside syn's recursive-descent parser:
+/// a run of more than 48 nesting-introducing characters (`||||…`, `((((…`, `!!!!…`). The shipped
+/// binary parses such input; the campaign skips it so that it is not ended by its own build.
+#[allow(dead_code)]
+pub fn too_deep(text: &str) -> bool {
+    let mut run = 0usize;
+    for c in text.chars() {
+        if matches!(c, '|' | '(' | '[' | '{' | '<' | '!' | '&' | '*' | '-' | '~') || c.is_whitespace() && run > 0 {
+            if !c.is_whitespace() {
+                run += 1;
+            }
+            if run > 48 {
+                return true;
+            }
+        } else {
+            run = 0;
+        }
+    }
+    false
+}
